@@ -52,6 +52,14 @@ pub enum Damage {
 pub struct Phase {
     pub threads: Vec<Vec<Op>>,
     pub damage_after: Vec<Damage>,
+    /// capacity of this phase's (re-)open in percent of the plan's capacity (C12 only; 100 = unchanged). A smaller
+    /// capacity leaves well-formed files on disk that the scan does not track.
+    #[serde(default = "hundred")]
+    pub capacity_pct: u32,
+}
+
+fn hundred() -> u32 {
+    100
 }
 
 #[derive(Clone, Debug, Serialize, Deserialize, PartialEq)]
@@ -328,7 +336,8 @@ fn gen(seed: u64, run: u64, focus: &str, tier: Tier) -> Plan {
                 damage_after.push(d);
             }
         }
-        phases.push(Phase { threads, damage_after });
+        let capacity_pct = if focus == "C12" && pi > 0 && rng.chance(1, 4) { *rng.pick(&[10u32, 30, 50, 200]) } else { 100 };
+        phases.push(Phase { threads, damage_after, capacity_pct });
     }
     Plan {
         keys,
@@ -420,7 +429,7 @@ fn apply_damage(d: &Damage, root: &Path, vks: &[VKey], sh: &Mutex<Shared>) {
             Some(files[(pick % files.len() as u64) as usize].clone())
         }
     };
-    let mut note = |p: &Path, kind: &str| {
+    let note = |p: &Path, kind: &str| {
         sh.lock().unwrap().provenance.insert(p.to_path_buf(), kind.to_string());
     };
     match d {
@@ -556,13 +565,17 @@ fn run_plan(p: &Plan, focus: &str, rep: &mut RunReport) {
     let mut racing_delete = false;
     let mut total_picks = 0u64;
     let mut total_switches = 0u64;
-    let cfg = CacheConfig {
-        cache_directory: root.clone(),
-        cache_size: p.capacity,
-    };
-
     for (pi, phase) in p.phases.iter().enumerate() {
         // ---- (re-)open
+        let cfg = CacheConfig {
+            cache_directory: root.clone(),
+            cache_size: (p.capacity * phase.capacity_pct as u64 / 100).max(1),
+        };
+        if phase.capacity_pct != 100 {
+            // accounting clauses (C13) are stated for re-opens with the same capacity only
+            damaged = true;
+            rep.count("fault:reopen_with_other_capacity", 1);
+        }
         let _ = take_last_panic();
         let init = std::panic::catch_unwind(|| DiskCache::initialize(&cfg));
         let cache = match init {
